@@ -769,16 +769,19 @@ def info_case(case):
         line["n"] = n
         if n and idx % 2:
             # history: the same list object was annotated before while it held another stream of the same length
+            # (each judged call directly follows a call with the same arguments on the same list object)
             work = list(tokens)
-            work[0] = next((t for t in tok.dictionary if t.startswith("rst_") and t != tokens[0]), tokens[0])
-            try:
-                tok.get_info(work)
-                tok.get_info(work, flag_impute_values=True)
-            except Exception:
-                pass
-            work[:] = tokens
-            info = tok.get_info(work)
-            imp = tok.get_info(work, flag_impute_values=True)
+            other = next((t for t in tok.dictionary if t.startswith("rst_") and t != tokens[0]), tokens[0])
+            res = []
+            for flag in (False, True):
+                work[0] = other
+                try:
+                    tok.get_info(work, flag_impute_values=flag)
+                except Exception:
+                    pass
+                work[0] = tokens[0]
+                res.append(tok.get_info(work, flag_impute_values=flag))
+            info, imp = res
         else:
             info = tok.get_info(list(tokens))
             imp = tok.get_info(list(tokens), flag_impute_values=True)
